@@ -16,7 +16,8 @@ RULE = ("2..4 controlled threads, each reporting 1..3 tests (any outcome kind, t
         "ints drawn by Hypothesis or enumerated by DFS with <= k pre-emptions; optional fault: the k-th call on the "
         "target raises. Oracle: the target log partitions into contiguous per-test blocks by one thread, each outcome "
         "exactly once, per-thread order, own start time and tags, no deadlock state, semaphore count back to 1 at the "
-        "end and never above 1, the injected exception reaches the calling thread. Non-trivial: a context switch "
+        "end and never above 1, the injected exception reaches the calling thread. After the explicit schedule is used up pre-emptions continue from a congruential sequence derived from the spec (about 1 decision in 2/4/8); a scheduling point sits between a reporter's own calls; 1..3 consecutive target calls may raise; failfast may be set on the target and on the forwarders; an enumerated family restarts a forwarder with the target raising at each of its first 16 calls. "
+        "Non-trivial: a context switch "
         "while a block was open (semaphore held), or a fault; distinct = distinct canonical (programs, schedule).")
 ASSUMPTIONS = [
     "interleavings are explored at the granularity of operations on shared objects (semaphore, target); code between "
